@@ -529,9 +529,14 @@ def prove_disconnect_relies(src_root, ex: Explorer):
     contract of disconnect (all start states x all outcomes of wait_closed), discharged here as well."""
     from contracts import C10
     C10.prove_disconnect(src_root, ex)
+    # stop() closes what is REGISTERED (C16.stop.network-disconnect): an accepted connection must be registered before its handler first
+    # suspends, otherwise a peer that connects and stays silent keeps its socket and its accept task beyond stop()
+    C10.prove_accepted_registered(src_root, ex)
     for ob in ex.obligations:
         if ob.name.startswith('C10.disconnect.'):
             ob.name = 'C16.watchdog.cancellation-passes-disconnect.' + ob.name[len('C10.disconnect.'):]
+        elif ob.name.startswith('C10.accepted.'):
+            ob.name = 'C16.stop.closes-accepted.' + ob.name[len('C10.accepted.'):]
 
 
 def prove_tree_relies(src_root, ex: Explorer):
